@@ -25,8 +25,8 @@ pub const SPECS: &[PropSpec] = &[
     PropSpec { id: "C16", level: "exploration", quick_runs: 60_000, thorough_runs: 1_500_000,
         rule: "seeded histories; after every call N+B <= memory_used_bytes <= N+B+64R, used <= allocated, truncate releases between b and b+64n, names-only baseline when all queues are empty. Non-trivial: history has a truncate evicting part of a queue and a point where all queues are empty. Distinct: history signature.",
         assumptions: &["state invariant monitored while simulated histories run; no fault enters this property"] },
-    PropSpec { id: "C17", level: "exploration", quick_runs: 40_000, thorough_runs: 1_000_000,
-        rule: "SimFs directory pre-populated with 1-8 foreign entries (near-miss names, other lengths, non-ASCII digits, non-UTF-8, dirs and symlinks incl. ones named like WAL files, WAL-like content), then roll-over heavy histories; every Open/Read/Create/SetLen/Write/Sync/Unlink effect must name a wal-<20 digits> regular file and foreign entries must stay byte-identical. Non-trivial: foreign file and dir/symlink present while GC deleted a file. Distinct: history signature x foreign name classes.",
+    PropSpec { id: "C17", level: "exploration", quick_runs: 12_000, thorough_runs: 400_000,
+        rule: "SimFs directory pre-populated with 1-8 foreign entries (near-miss names, other lengths, non-ASCII digits, non-UTF-8, dirs and symlinks incl. ones named like WAL files, WAL-like content), then roll-over heavy histories; every Open/Read/Create/SetLen/Write/Sync/Unlink effect must name a wal-<20 digits> regular file and foreign entries must stay byte-identical; differential: the same history without the foreign entries must return the same outcomes and states; gaps: every second run renumbers the WAL files of the final image with an order-preserving PRNG map (gaps up to 2^40, first number != 0) and requires the same state after open, a working continuation, and new files numbered after the highest. Non-trivial: foreign file and dir/symlink present while GC deleted a file. Distinct: history signature x foreign name classes.",
         assumptions: &["simulated symlinks dangle; file_type does not follow symlinks (as std::fs::DirEntry::file_type)"] },
 ];
 
@@ -107,6 +107,21 @@ pub fn run_hist(prop: &str, seed: u64, index: usize, _tier: Tier) -> RunReport {
     rep.states.push(state_signature(&d));
     if !d.conformance_ok() && prop != "C05" && prop != "C01" {
         rep.count("histories_cut_short_by_a_conformance_failure", 1);
+    }
+    if prop == "C17" && d.first_failure("C17").is_none() {
+        let mut extra = crate::meta::c17_differential(&case);
+        rep.evaluations += 1;
+        if extra.is_empty() && seed % 2 == 0 {
+            let (f, ran) = crate::meta::c17_gaps(&case, case.probe_seed);
+            if ran {
+                rep.evaluations += 1;
+                rep.count("gap_renumbering_cases", 1);
+            }
+            extra = f;
+        }
+        if let Some(f) = extra.into_iter().next() {
+            rep.found.push(Found { prop: prop.to_string(), clause: f.clause, detail: f.detail, case: case.clone(), fault: Fault::None });
+        }
     }
     for f in d.failures.iter().filter(|f| f.prop == prop) {
         let mut c = case.clone();
